@@ -169,6 +169,10 @@ func (g *G) ofType(typ byte, cfg *Cfg) *ref.AP {
 		a.ProtoVer = 5
 		if !wf && t.Bool(1, 12) {
 			a.ProtoName = g.Str(g.T.Int(8))
+			if t.Bool(1, 2) {
+				// near misses of the real protocol name (and the v3.1 one)
+				a.ProtoName = []byte([]string{"mqtt", "Mqtt", "MQTt", "MQIsdp", "MQTT5", "MQT", "MQTT "}[t.Int(7)])
+			}
 			a.ProtoVer = byte(t.Int(256))
 		}
 		if t.Bool(1, 2) {
